@@ -81,6 +81,7 @@ def uniform_hypergraph_configuration_model(k, m, seed=None):
             "Increasing the degree of random nodes so that it is."
         )
         random_ids = random.sample(list(k.keys()), int(round(m - remainder)))
+        k = dict(k)  # do not modify the caller's degree sequence
         for idx in random_ids:
             k[idx] = k[idx] + 1
 
